@@ -1,6 +1,6 @@
 """C02 harness: strictness -- no coercion across value kinds, in every embedding context.
 
-For every (target kind, context) the value's KIND is a symbolic selector over 12 kinds with symbolic content; the
+For every (target kind, context) the value's KIND is a symbolic selector over 14 kinds with symbolic content; the
 conversion must be accepted exactly when the (value kind, target kind) cell is in the allowed relation ALLOWED below,
 written out literally from the property statement and docs/using/basic.md:
 identity, plus the lossless widenings int -> float -> complex, bool as int (a bool IS an int; the forbidden direction is
@@ -63,7 +63,15 @@ class DST(PaneBase, in_format=('struct', 'tuple')):
 
 
 # value kinds
-KINDS = ('none', 'bool', 'int', 'float', 'complex', 'str', 'bytes', 'bytearray', 'list', 'tuple', 'dict', 'mapping')
+KINDS = ('none', 'bool', 'int', 'float', 'complex', 'str', 'bytes', 'bytearray', 'list', 'tuple', 'dict', 'mapping', 'strsub', 'bytessub')
+
+
+class StrVal(str):
+    """a VALUE whose type is a subclass of str (e.g. a (str, Enum) member, numpy.str_): still a string, never a sequence"""
+
+
+class BytesVal(bytes):
+    pass
 NUM = {'bool', 'int'}
 
 # target -> (type, allowed value kinds, valid list content, valid mapping content)
@@ -72,9 +80,9 @@ TARGETS = {
     'float': (float, {'bool', 'int', 'float'}),
     'complex': (complex, {'bool', 'int', 'float', 'complex'}),
     'bool': (bool, {'bool'}),
-    'str': (str, {'str'}),
-    'bytes': (bytes, {'bytes', 'bytearray'}),
-    'bytearray': (bytearray, {'bytes', 'bytearray'}),
+    'str': (str, {'str', 'strsub'}),
+    'bytes': (bytes, {'bytes', 'bytearray', 'bytessub'}),
+    'bytearray': (bytearray, {'bytes', 'bytearray', 'bytessub'}),
     'none': (type(None), {'none'}),
     'list': (t.List[t.Any], {'list', 'tuple'}),
     'list_str': (t.List[str], {'list', 'tuple'}),
@@ -89,8 +97,8 @@ TARGETS = {
     'dc_struct': (DS, {'dict', 'mapping'}),
     'dc_tuple': (DT, {'list', 'tuple'}),
     'dc_both': (DST, {'list', 'tuple', 'dict', 'mapping'}),
-    'lit_str': (Literal['a', 'b'], {'str'}),
-    'enum_str': (ES, {'str'}),
+    'lit_str': (Literal['a', 'b'], {'str', 'strsub'}),
+    'enum_str': (ES, {'str', 'strsub'}),
     'counter': (collections.Counter, {'dict', 'mapping'}),     # bare Counter: keys Any, values int
     'enum_int': (EI, {'bool', 'int'}),        # a bool is an int: True == 1 selects EI.ONE
 }
@@ -125,6 +133,10 @@ def value(kind, target, i, f, s, alt):
         return b'ab' if alt else b''
     elif kind == 7:
         return bytearray(b'ab') if alt else bytearray(b'')
+    elif kind == 12:
+        return StrVal('a' if alt else 'b') if target in ('lit_str', 'enum_str') else StrVal('pq')
+    elif kind == 13:
+        return BytesVal(b'ab')
     elif kind == 8 or kind == 9:
         if target == 'dc_tuple':
             xs = [1, 'y'] if alt else [1]
@@ -258,7 +270,7 @@ def check_cell(tn, ctx, kind, v):
 
 
 for (_k, _W) in CTYPE.items():
-    for _kind in range(12):
+    for _kind in range(14):
         for _alt in (False, True):
             try:
                 check_cell(_k[0], _k[1], _kind, value(_kind, _k[0], 1, 1.5, 'a', _alt))
@@ -266,7 +278,7 @@ for (_k, _W) in CTYPE.items():
                 pass
 
 _T_ = '''
-@obligation(pre="0 <= kind <= 11 and {fpre}", witnesses=(0, -1), timeout=90, tiers={tiers!r})
+@obligation(pre="0 <= kind <= 13 and {fpre}", witnesses=(0, -1), timeout=90, tiers={tiers!r})
 def body_cell_{tn}_{ctx}(kind: int, i: int, f: float, s: str, alt: bool) -> int:
     """strictness matrix: target kind {tn} in context {ctx} accepts exactly the allowed value kinds"""
     return check_cell({tn!r}, {ctx!r}, kind, value(kind, {tn!r}, i, f, s, alt))
@@ -279,3 +291,47 @@ for (_tn, _c) in CTYPE:
     # complex(): a symbolic float argument is realised without end -> concrete float for that target
     fpre = "True"
     exec(_T_.format(tn=_tn, ctx=_c, fpre=fpre, tiers=('quick', 'thorough') if quick else ('thorough',)))
+
+
+# ------------------------------------------------------------------ a field WITH a default is as strict as one without
+
+class DD(PaneBase):
+    i: int = 3
+    s: str = 's'
+    f: float = 1.0
+    b: bool = False
+    xs: t.List[int] = pane.field(default_factory=list)
+    m: t.Dict[str, int] = pane.field(default_factory=dict)
+    o: Optional[int] = 5
+
+
+make_converter(DD)
+DD_ALLOWED = {'i': {'bool', 'int'}, 's': {'str', 'strsub'}, 'f': {'bool', 'int', 'float'}, 'b': {'bool'}, 'xs': {'list', 'tuple'},
+              'm': {'dict', 'mapping'}, 'o': {'none', 'bool', 'int'}}
+
+
+@obligation(pre="0 <= kind <= 13 and 0 <= fsel <= 6", witnesses=(0, -1), timeout=120)
+def body_defaulted_field(fsel: int, kind: int, i: int, f: float, s: str, alt: bool) -> int:
+    """a dataclass field that has a default accepts exactly the kinds its type allows (None only where None is allowed)"""
+    name = 'i' if fsel == 0 else ('s' if fsel == 1 else ('f' if fsel == 2 else ('b' if fsel == 3 else ('xs' if fsel == 4 else ('m' if fsel == 5 else 'o')))))
+    tgt = 'float' if name == 'f' else ('dc_tuple' if name == 'xs' else ('dc_struct' if name == 'm' else 'int'))
+    v = value(kind, tgt, i, f, s, alt)
+    if name == 'xs' and kind in (8, 9):
+        v = [1] if kind == 8 else (1,)
+    if name == 'o' and kind == 2:
+        v = i
+    want = kind_name(kind) in DD_ALLOWED[name]
+    try:
+        DD.from_data({name: v})
+        ok = True
+    except ConvertError:
+        ok = False
+    except Exception as e:
+        if crosshair_exc(e):
+            raise
+        return 5
+    if ok and not want:
+        return 1
+    if want and not ok:
+        return 2
+    return 0 if ok else -1
